@@ -27,6 +27,9 @@ type c19Req struct {
 type c19Case struct {
 	Restart bool     `json:"restart"` // close + reopen the engine after the sequence and compare the tree again
 	Reqs    []c19Req `json:"reqs"`
+	// NoSettle (hand-written replays only): do not wait for the untracked
+	// turbo-refine pass that POST /vector/actions/import/commit starts.
+	NoSettle bool `json:"no_settle,omitempty"`
 
 	excluded []string // known-finding exclusions that fired while generating (not part of the case data)
 }
@@ -90,7 +93,7 @@ var c19Routes = []c19Route{
 	{"index", "POST", "/vector/indexes/{name}/maintenance", "", []c19F{{"type", "str", `"vacuum"`, false}}, 3},
 	{"index", "PUT", "/vector/indexes/{name}/auto-links", "", []c19F{{"rules", "objs", c19Rules, false}}, 2},
 	{"index", "GET", "/vector/indexes/{name}/auto-links", "", nil, 1},
-	{"index", "GET", "/vector/indexes/{name}/export", "export", nil, 2},
+	{"index", "GET", "/vector/indexes/{name}/export", "export", nil, 3},
 	{"index", "GET", "/vector/indexes/{name}/vectors/{id}", "", nil, 3},
 	{"index", "GET", "/vector/indexes/{name}/reflections", "reflections", nil, 1},
 	{"index", "POST", "/vector/indexes/{name}/reflections/{id}/resolve", "", []c19F{{"resolution", "str", `"fine"`, false}, {"discard_id", "id", `"v3"`, true}}, 2},
@@ -292,7 +295,11 @@ func c19Escapes(name string) bool {
 // escaped, so "%2e%2e" reaches the handler decoded as ".."; esc: the handler
 // receives the name verbatim.
 func (g *c19G) urlName(name string) string {
-	if g.chance("esc", 1, 3) {
+	escNum := 1
+	if strings.Contains(name, "..") {
+		escNum = 2 // a raw ".." segment is cleaned away by the mux (301) before any handler sees it
+	}
+	if g.chance("esc", escNum, 3) {
 		return strings.ReplaceAll(url.PathEscape(strings.ReplaceAll(name, c19PH, "\x01")), "%01", c19PHEsc)
 	}
 	var b strings.Builder
@@ -424,8 +431,12 @@ func (g *c19G) validFields(r c19Route, scenarioName string) []c19KV {
 				v = c19Q(g.idName(true))
 			}
 		case "int":
-			if c19IsCreate(r) && g.chance("cfgx", 1, 3) { // configuration extremes on an otherwise valid create
+			if (c19IsCreate(r) && g.chance("cfgx", 1, 3)) || (!c19IsCreate(r) && g.chance("intx", 1, 5)) { // extremes in an otherwise valid body
 				v = g.oneOf("cfg", "1", "2", "0", "-1", "3", "1000000", "4611686018427387904", "9223372036854775807", "-9223372036854775808")
+			}
+		case "float":
+			if g.chance("fltx", 1, 5) {
+				v = g.oneOf("flt", "0", "-1", "1e308", "-1e308", "1e-320", "2")
 			}
 		case "vec":
 			if g.chance("altvec", 1, 4) {
@@ -758,12 +769,16 @@ func c19GenCase() *rapid.Generator[c19Case] {
 			if name == "" {
 				name = "."
 			}
+			orig := name
 			name = g.knownName(name)
 			mk := func(method, path string, mut bool) c19Req {
 				r := g.request(c19RouteByPath(method, path), name, mut)
 				return r
 			}
 			c.Reqs = append(c.Reqs, mk("POST", g.oneOf("cr", "/vector/indexes", "/vector/actions/create"), g.chance("cm", 1, 4)))
+			if name != orig && g.chance("keeporig", 1, 2) {
+				name = orig // the create was neutralised (known finding); the other routes still see the original name
+			}
 			if g.chance("add", 5, 6) {
 				if g.chance("single", 2, 3) {
 					c.Reqs = append(c.Reqs, mk("POST", "/vector/actions/add", g.chance("am", 1, 4)))
@@ -772,7 +787,13 @@ func c19GenCase() *rapid.Generator[c19Case] {
 				}
 			}
 			for i, n := 0, g.pick("mid", 3); i < n; i++ {
-				p := g.oneOf("midr", "/vector/actions/search", "/vector/actions/compress", "/graph/actions/set-node-properties", "/vector/actions/import/commit", "/vector/actions/delete_vector", "/ui/explore", "/graph/actions/search-nodes")
+				if g.chance("midget", 1, 3) {
+					p := g.oneOf("midg", "/vector/indexes/{name}/export", "/vector/indexes/{name}", "/vector/indexes/{name}/vectors/{id}", "/vector/indexes/{name}/auto-links")
+					c.Reqs = append(c.Reqs, mk("GET", p, false))
+					continue
+				}
+				p := g.oneOf("midr", "/vector/actions/search", "/vector/actions/compress", "/graph/actions/set-node-properties", "/vector/actions/import/commit", "/vector/actions/delete_vector", "/ui/explore", "/graph/actions/search-nodes",
+					"/vector/indexes/{name}/maintenance", "/vector/indexes/{name}/config")
 				c.Reqs = append(c.Reqs, mk("POST", p, g.chance("mm", 1, 3)))
 			}
 			if g.chance("save", 1, 4) {
@@ -784,7 +805,7 @@ func c19GenCase() *rapid.Generator[c19Case] {
 			if len(c.Reqs) > 6 {
 				c.Reqs = append(c.Reqs[:5], c.Reqs[len(c.Reqs)-1])
 			}
-		case shape < 4 && g.chance("lim", 1, 2): // a published limit, alone or after a valid neighbour
+		case shape < 4: // a published limit, alone or after a valid neighbour
 			type lim struct{ path, field, gen string }
 			l := []lim{{"/vector/actions/search", "k", ""}, {"/vector/actions/search-with-scores", "k", ""}, {"/vector/actions/add-batch", "vectors", "batch"},
 				{"/vector/actions/import", "vectors", "batch"}, {"/vector/actions/add", "vector", "dim"}}[g.pick("limr", 5)]
@@ -805,12 +826,49 @@ func c19GenCase() *rapid.Generator[c19Case] {
 				}
 			}
 			req := c19Req{Method: "POST", Route: "POST " + l.path, Target: l.path, Mut: []string{"limit-" + l.field}}
+			g.applyKnown(r, fs)
 			req.Body, req.Gen = c19Finish(fs)
 			if g.chance("pre", 1, 3) {
 				c.Reqs = append(c.Reqs, g.request(r, "", false))
 			}
 			c.Reqs = append(c.Reqs, req)
-		case shape < 4: // burst on one route
+		case shape < 6: // one path-grammar name swept over several name-bearing routes
+			g.dotdot = 6
+			var name string
+			if g.chance("swesc", 2, 3) { // k traversal steps and a target: resolves outside the data dir when joined below it
+				k := 2 + g.pick("k", 5)
+				name = strings.TrimSuffix(strings.Repeat("../", k), "/") + "/" + g.oneOf("tgt", "victim", "decoy", "x", "a", "victim/keep.bin")
+			} else {
+				name = g.pathName()
+			}
+			if name == "" {
+				name = ".."
+			}
+			var named, pathNamed []c19Route
+			for _, r := range c19Routes {
+				has := strings.Contains(r.Path, "{name}")
+				if has {
+					pathNamed = append(pathNamed, r)
+				}
+				for _, f := range r.Fields {
+					if f.K == "index" {
+						has = true
+					}
+				}
+				if has {
+					named = append(named, r)
+				}
+			}
+			for i, n := 0, 2+g.pick("sweep", 5); i < n; i++ {
+				var r c19Route
+				if g.chance("swp", 1, 2) {
+					r = pathNamed[g.pick("swr", len(pathNamed))]
+				} else {
+					r = named[g.pick("swr", len(named))]
+				}
+				c.Reqs = append(c.Reqs, g.request(r, name, g.chance("swm", 1, 4)))
+			}
+		case shape < 7: // burst on one route
 			r := g.weightedRoute()
 			for i, n := 0, 2+g.pick("burst", 4); i < n; i++ {
 				c.Reqs = append(c.Reqs, g.request(r, "", true))
